@@ -127,6 +127,35 @@ class Package:
         return self.functions[(file, name)]
 
 
+def species_count_method(pkg):
+    """(name, FunctionDef) of the Species method that records element counts (writes self.element_count[..]) -- found by what it
+    does, so that renaming a private helper is not an analysis failure"""
+    ci = pkg.cls("Species")
+    for name, fn in ci.methods.items():
+        for n in ast.walk(fn):
+            tg = []
+            if isinstance(n, ast.Assign):
+                tg = n.targets
+            elif isinstance(n, ast.AugAssign):
+                tg = [n.target]
+            for t in tg:
+                if isinstance(t, ast.Subscript) and ast.unparse(t.value) == "self.element_count":
+                    return name, fn
+            if isinstance(n, ast.Call) and isinstance(n.func, ast.Attribute) and n.func.attr in ("update", "setdefault") and ast.unparse(n.func.value) == "self.element_count":
+                return name, fn
+    raise AnalysisError("no method of Species records element counts (self.element_count[..] = ..)", (ci.file, 0), MISSING)
+
+
+def species_parse_method(pkg):
+    """the Species method that calls the count method while scanning the name"""
+    cname, _ = species_count_method(pkg)
+    ci = pkg.cls("Species")
+    for name, fn in ci.methods.items():
+        if name != cname and any(isinstance(c, ast.Call) and ast.unparse(c.func) == f"self.{cname}" for c in ast.walk(fn)):
+            return name, fn
+    raise AnalysisError("no method of Species calls the element-count method", (ci.file, 0), MISSING)
+
+
 def package(tree: SourceTree) -> Package:
     if "_pkg" not in tree.__dict__:
         tree.__dict__["_pkg"] = Package(tree)
